@@ -403,6 +403,12 @@ class BernoulliFamily(StatelessDistributionFamilyFromTorchDistribution):
     parameters: ClassVar = ("loc",)
     dist_factory: ClassVar = torch.distributions.Bernoulli
 
+    @classmethod
+    def _nll(cls, x: WeightedTensor, *params: torch.Tensor) -> WeightedTensor:
+        # entries without weight (missing values, padding) may hold anything, they are evaluated at a valid outcome
+        # (torch validates the support of the Bernoulli distribution on every entry)
+        return super()._nll(x.valued(x.filled(0.0)), *params)
+
 
 class NormalFamily(StatelessDistributionFamilyFromTorchDistribution):
     """
